@@ -73,7 +73,9 @@ fn err_class(e: &re_geom::io::Error) -> String {
 
 #[derive(Clone, Debug, PartialEq, Eq)]
 pub enum RefObj {
-    Accept { verts: Vec<[u32; 3]>, tris: Vec<[usize; 3]> },
+    /// `soft`: some numeral is spelled in a way a reader may refuse; then `Ok` must be this
+    /// mesh but `Err` is tolerated.
+    Accept { verts: Vec<[u32; 3]>, tris: Vec<[usize; 3]>, soft: bool },
     /// Every line is inside the grammar, but some face refers to a vertex (or
     /// attribute) that the file does not define. `tris` are the listed faces as written
     /// (zero-based, possibly out of range). There is no faithful mesh for such a file:
@@ -119,12 +121,16 @@ fn is_number(tok: &[u8]) -> bool {
     i == n
 }
 
-fn ref_float(tok: &[u8]) -> Option<u32> {
+/// The value of a numeral inside the grammar, and whether its spelling is one a reader
+/// may defensibly refuse (an explicit `+`, a dot with nothing after it).
+fn ref_float(tok: &[u8]) -> Option<(u32, bool)> {
     if !is_number(tok) {
         return None;
     }
+    let mantissa_end = tok.iter().position(|&b| b == b'e' || b == b'E').unwrap_or(tok.len());
+    let soft = tok[0] == b'+' || tok[mantissa_end - 1] == b'.';
     // Trusted base: core's correctly rounded decimal -> f32 conversion.
-    std::str::from_utf8(tok).ok()?.parse::<f32>().ok().map(f32::to_bits)
+    std::str::from_utf8(tok).ok()?.parse::<f32>().ok().map(|x| (x.to_bits(), soft))
 }
 
 /// One-based index without sign or leading zero, small enough to be meaningful.
@@ -138,6 +144,7 @@ fn ref_index(tok: &[u8]) -> Option<usize> {
 pub fn ref_obj(bytes: &[u8]) -> RefObj {
     use RefObj::*;
     let mut verts = vec![];
+    let mut soft = false;
     let mut tris: Vec<[usize; 3]> = vec![];
     let (mut nvt, mut nvn) = (0usize, 0usize);
     let (mut max_vt, mut max_vn) = (0usize, 0usize);
@@ -165,7 +172,10 @@ pub fn ref_obj(bytes: &[u8]) -> RefObj {
                 let mut p = [0u32; 3];
                 for (k, a) in args.iter().enumerate() {
                     match ref_float(a) {
-                        Some(x) => p[k] = x,
+                        Some((x, sf)) => {
+                            p[k] = x;
+                            soft |= sf;
+                        }
                         None => return Unsure("coordinate outside the number grammar"),
                     }
                 }
@@ -175,12 +185,14 @@ pub fn ref_obj(bytes: &[u8]) -> RefObj {
                 if !(args.len() == 2 || args.len() == 3) || args.iter().any(|a| ref_float(a).is_none()) {
                     return Unsure("vt outside grammar");
                 }
+                soft |= args.iter().any(|a| ref_float(a).map_or(false, |r| r.1));
                 nvt += 1;
             }
             b"vn" => {
                 if args.len() != 3 || args.iter().any(|a| ref_float(a).is_none()) {
                     return Unsure("vn outside grammar");
                 }
+                soft |= args.iter().any(|a| ref_float(a).map_or(false, |r| r.1));
                 nvn += 1;
             }
             b"f" => {
@@ -220,7 +232,7 @@ pub fn ref_obj(bytes: &[u8]) -> RefObj {
     if tris.iter().flatten().any(|&i| i >= verts.len()) || max_vt > nvt || max_vn > nvn {
         return Dangling { verts, tris };
     }
-    Accept { verts, tris }
+    Accept { verts, tris, soft }
 }
 
 // ---------------------------------------------------------------------------
@@ -736,7 +748,7 @@ pub fn gen_jumbo(seed: u64) -> (ObjScenario, &'static str, Option<String>) {
     let g = gen_obj_jumbo(&mut rng);
     let mut self_check = None;
     match ref_obj(&g.text) {
-        RefObj::Accept { verts, tris } if verts == g.verts && tris == g.tris => {}
+        RefObj::Accept { verts, tris, .. } if verts == g.verts && tris == g.tris => {}
         _ => self_check = Some("reference disagrees with generator on a jumbo file".to_string()),
     }
     let len = g.text.len();
@@ -757,7 +769,7 @@ pub fn gen_scenario(seed: u64) -> (ObjScenario, &'static str, Option<String>) {
     // Harness self-check: the reference must read a generated file back as generated.
     let mut self_check = None;
     match ref_obj(&g.text) {
-        RefObj::Accept { verts, tris } if verts == g.verts && tris == g.tris => {}
+        RefObj::Accept { verts, tris, .. } if verts == g.verts && tris == g.tris => {}
         other => self_check = Some(format!("reference disagrees with generator: {other:?}")),
     }
     let mode = rng.below(100);
@@ -831,6 +843,7 @@ fn observe(res: Result<Builder<()>, re_geom::io::Error>, who: &str, rr: &mut Run
 fn diff(a: &ObjOut, b: &ObjOut) -> &'static str {
     match (a, b) {
         (ObjOut::Ok { verts: va, tris: ta }, ObjOut::Ok { verts: vb, tris: tb }) => {
+            // "exactly ... the written coordinates": bit patterns, so that -0 stays -0
             if va.len() != vb.len() {
                 "vertex-count"
             } else if va != vb {
@@ -893,9 +906,13 @@ pub fn run(scn: &ObjScenario, record: bool) -> RunResult {
     let refv = ref_obj(&bytes);
 
     // --- X: exact agreement with the reference wherever it accepts --------------------
-    if let (RefObj::Accept { verts, tris }, Some(out)) = (&refv, &base_out) {
+    if let (RefObj::Accept { verts, tris, soft }, Some(out)) = (&refv, &base_out) {
         let want = ObjOut::Ok { verts: verts.clone(), tris: tris.clone() };
-        let d = diff(out, &want);
+        let mut d = diff(out, &want);
+        if *soft && d == "err-vs-ok" {
+            rr.probe("soft acceptance: reader refused a `+` sign or a bare trailing dot (tolerated)");
+            d = "equal";
+        }
         rr.oracle("X", d == "equal");
         if d != "equal" {
             rr.violate(Violation::new(
@@ -974,9 +991,9 @@ pub fn run(scn: &ObjScenario, record: bool) -> RunResult {
 
     // --- F: a failing stream may cost the result, never falsify it -----------------------
     if rd_err > 0 {
-        if let (RefObj::Accept { verts, tris }, Some(sout)) = (&refv, &streamed_out) {
+        if let (RefObj::Accept { verts, tris, .. }, Some(sout)) = (&refv, &streamed_out) {
             let want = ObjOut::Ok { verts: verts.clone(), tris: tris.clone() };
-            let ok = matches!(sout, ObjOut::Err(_)) || *sout == want;
+            let ok = matches!(sout, ObjOut::Err(_)) || diff(sout, &want) == "equal";
             rr.oracle("F", ok);
             if !ok {
                 rr.violate(Violation::new(
@@ -1070,7 +1087,7 @@ pub fn run(scn: &ObjScenario, record: bool) -> RunResult {
         rr.notes.insert("disk_bytes".into(), escape_bytes(&bytes));
         rr.notes.insert("delivered_len".into(), delivered.to_string());
         rr.notes.insert("reference".into(), match &refv {
-            RefObj::Accept { verts, tris } => format!("Accept({} verts, {} tris)", verts.len(), tris.len()),
+            RefObj::Accept { verts, tris, soft } => format!("Accept({} verts, {} tris{})", verts.len(), tris.len(), if *soft { ", soft" } else { "" }),
             RefObj::Dangling { verts, tris } => format!("Dangling({} verts, {} tris)", verts.len(), tris.len()),
             RefObj::Unsure(w) => format!("Unsure({w})"),
         });
